@@ -288,20 +288,17 @@ def comparer_terms(cmp, run=None):
             'span': 'CmpSpan', 'phase': 'CmpPhase'}[name]
 
 
-def build_grader(spec, run):
-    """returns the grader; recording wrappers are installed in `run`"""
-    import numpy as np
-    import mitxgraders
-    from mitxgraders import FormulaGrader, NumericalGrader, MatrixGrader
+def make_comparer(cmp, holder):
+    """the comparer object for cmp = {'name', 'cfg'}; every call (and every transform call) is recorded into holder['run'],
+    so that ONE comparer object can be shared by several graders (shared-comparer histories)"""
     from mitxgraders.comparers import comparers as cmod
     from mitxgraders.comparers import linear_comparer as lmod
-    from mitxgraders.sampling import IntegerRange, RealInterval, ComplexRectangle
-    name, cfg = spec['cmp']['name'], dict(spec['cmp'].get('cfg', {}))
+    name, cfg = cmp['name'], dict(cmp.get('cfg', {}))
 
     def record(fn):
         def wrapped(params, student, utils):
             entry = {'params': params, 'student': student}
-            run.calls.append(entry)
+            holder['run'].calls.append(entry)
             try:
                 entry['ret'] = fn(params, student, utils)
             except BaseException as e:          # noqa
@@ -316,23 +313,32 @@ def build_grader(spec, run):
 
         def simple(params, student, utils, target=target):
             return getattr(cmod, target)(params, student, utils)
-        comparer = record(simple)
-    else:
-        base = {'equality': cmod.EqualityComparer, 'entry': cmod.MatrixEntryComparer, 'linear': lmod.LinearComparer}[name]
+        return record(simple)
+    base = {'equality': cmod.EqualityComparer, 'entry': cmod.MatrixEntryComparer, 'linear': lmod.LinearComparer}[name]
 
-        class Recording(base):
-            def __call__(self, params, student, utils):
-                return record(lambda p, s, u: base.__call__(self, p, s, u))(params, student, utils)
-        Recording.__name__ = base.__name__
-        if cfg.get('transform'):
-            fn = transform_function(cfg['transform'])
+    class Recording(base):
+        def __call__(self, params, student, utils):
+            return record(lambda p, s, u: base.__call__(self, p, s, u))(params, student, utils)
+    Recording.__name__ = base.__name__
+    if cfg.get('transform'):
+        fn = transform_function(cfg['transform'])
 
-            def recorded_transform(x, fn=fn):
-                y = fn(x)
-                run.transforms.append((x, y))
-                return y
-            cfg['transform'] = recorded_transform
-        comparer = Recording(**cfg)
+        def recorded_transform(x, fn=fn):
+            y = fn(x)
+            holder['run'].transforms.append((x, y))
+            return y
+        cfg['transform'] = recorded_transform
+    return Recording(**cfg)
+
+
+def build_grader(spec, run, comparer=None):
+    """returns the grader; recording wrappers are installed in `run` (unless a shared comparer is passed in)"""
+    import numpy as np
+    import mitxgraders
+    from mitxgraders import FormulaGrader, NumericalGrader, MatrixGrader
+    from mitxgraders.sampling import IntegerRange, RealInterval, ComplexRectangle
+    if comparer is None:
+        comparer = make_comparer(spec['cmp'], {'run': run})
 
     config = {'answers': {'expect': {'comparer': comparer, 'comparer_params': list(spec['params'])},
                           'grade_decimal': spec.get('ag', 1)},
@@ -376,10 +382,13 @@ def build_grader(spec, run):
     return FormulaGrader(**config)
 
 
-def execute(spec):
-    """run the real grader on spec['student']; returns a Run"""
+def execute(spec, comparer=None, holder=None):
+    """run the real grader on spec['student']; returns a Run.  With `comparer` (built by make_comparer over `holder`) the
+    grader uses that shared comparer object instead of a fresh one."""
     import numpy as np
     run = Run()
+    if holder is not None:
+        holder['run'] = run
     orig = np.linalg.lstsq
 
     def lstsq(a, b, rcond=None):
@@ -388,7 +397,7 @@ def execute(spec):
         return res
 
     def go():
-        grader = build_grader(spec, run)
+        grader = build_grader(spec, run, comparer)
         random.seed(spec.get('seed', 0))
         np.random.seed(spec.get('seed', 0) % (2 ** 32))
         np.linalg.lstsq = lstsq
@@ -975,18 +984,31 @@ def gen_linear(rng, n):
                 a = 2
         if vector:
             E = rng.choice(['[x, y]', '[x, x^2, 1]' if sampling == 'int' else '[y, x]', '[x+y, x-y]',
-                            '[0, 0]' if form == 'zero' and rng.random() < 0.5 else '[x, 2*y]'])
-            dim = E.count(',') + 1
-            ones_v = '[' + ', '.join(['1'] * dim) + ']'
+                            '[0, 0]' if form == 'zero' and rng.random() < 0.5 else '[x, 2*y]',
+                            # expected arrays with zero entries in some positions, zero rows, diagonal matrices
+                            '[x, 0, y]', '[0, x]', 'x*[1, 0]', '[[x, 0], [0, y]]', '[[x, y], [0, 0]]', '[[0, 0], [0, x]]'])
+            if E.startswith('[['):
+                if form in ('square', 'iso', 'tiny'):
+                    form = 'lin'
+                if form == 'zero' and rng.random() < 0.5:
+                    E = '[[0, 0], [0, 0]]'
+                dim = 2
+                ones_v = '[[1, 1], [1, 1]]'
+            else:
+                dim = (E.count(',') + 1) if not E.startswith('x*') else 2
+                ones_v = '[' + ', '.join(['1'] * dim) + ']'
             S = '%s*%s+%s*%s' % (cnum(a), E, cnum(b), ones_v)
+            if form == 'square' and E.startswith('x*'):
+                form = 'lin'
             if form == 'square':
                 S = '[' + ', '.join('(%s)^2' % e.strip() for e in E[1:-1].split(',')) + ']'
-            elif form == 'zero' and E != '[0, 0]':
-                S = '[' + ', '.join(['0'] * dim) + ']'
+            elif form == 'zero' and E not in ('[0, 0]', '[[0, 0], [0, 0]]'):
+                S = '[' + ', '.join(['0'] * dim) + ']' if not E.startswith('[[') else '[[0, 0], [0, 0]]'
             elif form == 'const':
-                S = vec_str([rc(rng, False, ints=True) for _ in range(dim)])
+                S = vec_str([rc(rng, False, ints=True) for _ in range(dim)]) if not E.startswith('[[') else \
+                    mat_str([[rc(rng, False, ints=True) for _ in range(2)] for _ in range(2)])
             elif form == 'shape':
-                S = rng.choice(wrong_shapes(rng, dim))
+                S = rng.choice(wrong_shapes(rng, dim, (2, 2) if E.startswith('[[') else None))
             elif form == 'iso':
                 offs = rng.choice([[1, 1j], [1j, 1], [2, -2j]]) + [0] * (dim - 2)
                 S = '%s+%s' % (E, vec_str(offs))
@@ -1204,6 +1226,120 @@ def shape_grid():
                         'student': st, 'expect': {'kind': 'wrongshape'}, 'exact': False, 'policy': pol, 'samples': 3,
                         'variables': ['x', 'y']})
     return out
+
+
+# ------------------------------------------------------------------------------------------------
+# history independence of the comparers: shared comparer objects, and perturb-then-probe against a fresh interpreter
+# ------------------------------------------------------------------------------------------------
+def outcome_key(run):
+    """canonical, comparable form of what a grader call did"""
+    if run.status == 'ret':
+        r = run.out
+        g = r.get('grade_decimal')
+        return ['ret', repr(r.get('ok')), round(float(g), 9) if isinstance(g, (int, float)) else repr(g), r.get('msg', '')]
+    return [run.status, type(run.out).__name__, str(run.out)]
+
+
+def shared_histories(rng):
+    """Groups of graders that share ONE comparer object (explicitly, or as the class default through
+    MatrixGrader.set_default_comparer) while differing in tolerance / mismatch policy / answer credit, run in a varying
+    order with wrong-shape and error-raising submissions in between.  Every result must be the one the grader's own
+    configuration prescribes: it goes through the ordinary oracle and correspondence and is compared with the same
+    case run on a fresh comparer object."""
+    groups = []
+    tolerances = [0.5, 0.01, '1%', 1e-6, '25%', 0.125]
+
+    def members(cmp, grader, params, students, extra=None, n=5, route=None):
+        specs = []
+        for i in range(n):
+            sp = {'grader': grader, 'cmp': cmp, 'params': params, 'tolerance': rng.choice(tolerances),
+                  'student': rng.choice(students), 'expect': {'kind': None}, 'exact': False, 'samples': rng.choice([1, 2]),
+                  'policy': rng.choice(POLICIES), 'ag': rng.choice([1, 1, 0.5])}
+            if extra:
+                sp.update(extra)
+            if route:
+                sp['route'] = route
+            specs.append(sp)
+        # make sure a loose tolerance comes before a strict one and vice versa somewhere in the history
+        specs[0]['tolerance'], specs[1]['tolerance'] = rng.choice([(0.5, 0.01), (0.01, 0.5), ('25%', 1e-6), (1e-6, '25%')])
+        return specs
+    vec_students = ['[1.2, 2, 3]', '[1, 2, 3]', '[1.004, 2, 3.3]', '[5, 6, 7]', '[1, 2]', '7', '[1.2, 2.2, 3.2]']
+    mat_students = ['[[1.2, 2], [3, 4]]', '[[1, 2], [3, 4]]', '[[1, 2.004], [3.3, 4]]', '[1, 2]', '[[9, 9], [9, 9]]']
+    for pc in ('proportional', 0.5):
+        for route in (None, 'class_default'):
+            groups.append({'cmp': {'name': 'entry', 'cfg': {'entry_partial_credit': pc}}, 'route': route,
+                           'specs': members({'name': 'entry', 'cfg': {'entry_partial_credit': pc}}, 'Matrix', ['[1, 2, 3]'],
+                                            vec_students, route=route)})
+    groups.append({'cmp': {'name': 'entry', 'cfg': {'entry_partial_credit': 'proportional'}}, 'route': None,
+                   'specs': members({'name': 'entry', 'cfg': {'entry_partial_credit': 'proportional'}}, 'Matrix',
+                                    ['[[1, 2], [3, 4]]'], mat_students)})
+    for tname in (None, 'abs', 'norm'):
+        cmp = {'name': 'equality', 'cfg': {'transform': tname} if tname else {}}
+        for route in (None, 'class_default'):
+            groups.append({'cmp': cmp, 'route': route, 'specs': members(cmp, 'Matrix', ['[1, 2, 3]'], vec_students, route=route)})
+    lin = {'name': 'linear', 'cfg': {'offset': 0.7, 'linear': 0.3}}
+    lin_extra = {'variables': ['x', 'y'], 'sample_from': {'x': ['int', 1, 30], 'y': ['int', 1, 30]}, 'samples': 4}
+    groups.append({'cmp': lin, 'route': None,
+                   'specs': members(lin, 'Matrix', ['[x, 0, y]'], ['[x, 0, y]', '3*[x, 0, y]', '[x, 0, y]+[1, 1, 1]', '[0, 0, 0]',
+                                                                   '[x+0.3, 0, y]', '[x, y]', '2*[x, 0, y]+[1, 1, 1]'], lin_extra)})
+    groups.append({'cmp': lin, 'route': None,
+                   'specs': members(lin, 'Formula', ['x'], ['x', '2*x', 'x+1', '0', 'x+0.004', 'x^2'], lin_extra)})
+    for name, params, students in (('congruence', ['1', '3'], ['4', '4.2', '1.004', '-2', '2.5']),
+                                   ('eigen', ['[[2, 1], [1, 2]]', '3'], ['[1, 1]', '[1, 1.2]', '[2, 2.002]', '[1, -1]', '[0, 0]', '5']),
+                                   ('span', ['[1, 1, 0]', '[0, 1, 2]'], ['[1, 2, 2]', '[1, 2, 2.2]', '[1, 2.001, 2]', '[1, 2]', '[0, 0, 0]']),
+                                   ('phase', ['[1, i, 0]'], ['[i, -1, 0]', '[i, -1, 0.2]', '[1.1*i, -1.1, 0]', '[0, 0, 0]'])):
+        cmp = {'name': name}
+        groups.append({'cmp': cmp, 'route': None,
+                       'specs': members(cmp, 'Numerical' if name == 'congruence' else 'Matrix', params, students)})
+    generic = {'entry': 'entry', 'linear': 'linear', 'congruence': 'congruence', 'eigen': 'eigen', 'phase': 'phase'}
+    for g in groups:
+        rng.shuffle(g['specs'])
+        for sp in g['specs']:
+            kind = generic.get(g['cmp']['name'])
+            if kind:
+                sp['expect'] = {'kind': kind, 'pc': g['cmp'].get('cfg', {}).get('entry_partial_credit', 0)}
+    return groups
+
+
+def run_group(group):
+    """runs the graders of a group on ONE shared comparer object; returns the list of Runs"""
+    holder = {}
+    comparer = make_comparer(group['cmp'], holder)
+    return [execute(sp, comparer=comparer, holder=holder) for sp in group['specs']]
+
+
+PROBE_SCRIPT = ('import json, sys\n'
+                'from harness.props import c16\n'
+                'specs = json.load(sys.stdin)\n'
+                'print("@@PROBES" + json.dumps([c16.outcome_key(c16.execute(sp)) for sp in specs]))\n')
+
+
+def probe_specs():
+    """fixed probe cases for perturb-then-probe: the regression corpus, part of the shape grid and a few entry/linear cases"""
+    probes = corpus() + shape_grid()[::9] + transform_shape_stream(random.Random(11))[::17]
+    probes += gen_entry(random.Random(12), 12) + gen_linear(random.Random(13), 12) + gen_equality(random.Random(14), 8)
+    for i, sp in enumerate(probes):
+        sp['seed'] = 777 + i
+    return probes
+
+
+def fresh_outcomes(specs):
+    """outcomes of the specs in a FRESH interpreter (nothing of this run's history); None if the subprocess failed"""
+    import os
+    import subprocess
+    import sys
+    env = dict(os.environ)
+    env['PYTHONPATH'] = core.REPO + os.pathsep + core.VERIF
+    env['PYTHONHASHSEED'] = '0'
+    try:
+        p = subprocess.run([sys.executable, '-B', '-c', PROBE_SCRIPT], input=json.dumps(specs), env=env, cwd=core.VERIF,
+                           stdout=subprocess.PIPE, stderr=subprocess.PIPE, text=True, timeout=300)
+    except Exception as e:                                       # noqa
+        return None, repr(e)
+    for line in p.stdout.splitlines():
+        if line.startswith('@@PROBES'):
+            return json.loads(line[len('@@PROBES'):]), ''
+    return None, (p.stderr or p.stdout)[-800:]
 
 
 # ------------------------------------------------------------------------------------------------
@@ -1503,12 +1639,12 @@ def all_specs(ctx):
     mult = 10 if not quick else 3 if escalated else 1
     specs = corpus() + shape_grid() + transform_shape_stream(rng, 1 if quick and not escalated else 3)
     specs += gen_between(rng, 90 * mult)
-    specs += gen_congruence(rng, 150 * mult)
+    specs += gen_congruence(rng, 130 * mult)
     specs += gen_eigen(rng, 120 * mult)
-    specs += gen_span(rng, 150 * mult)
-    specs += gen_phase(rng, 120 * mult)
-    specs += gen_entry(rng, 140 * mult)
-    specs += gen_linear(rng, 150 * mult)
+    specs += gen_span(rng, 130 * mult)
+    specs += gen_phase(rng, 100 * mult)
+    specs += gen_entry(rng, 120 * mult)
+    specs += gen_linear(rng, 140 * mult)
     specs += gen_equality(rng, 80 * mult)
     for i, s in enumerate(specs):
         s.setdefault('seed', (ctx['seed'] * 100003 + i) % (2 ** 31))
@@ -1561,6 +1697,54 @@ def run(ctx):
             res.samples.append({'comparer': name, 'grader': spec['grader'], 'comparer_params': spec['params'],
                                 'tolerance': spec['tolerance'], 'student_input': spec['student'], 'implementation': describe(r),
                                 'oracle_expectation': spec.get('expect')})
+    # --- shared comparer objects: every grader must behave as its own configuration says, whatever ran before
+    groups = shared_histories(random.Random(104729 * ctx['seed'] + 61))
+    dist['shared_comparer_groups'] = len(groups)
+    dist['shared_comparer_runs'] = 0
+    for gi, group in enumerate(groups):
+        runs = run_group(group)
+        for j, (spec, r) in enumerate(zip(group['specs'], runs)):
+            res.oracle_evals += 1
+            dist['shared_comparer_runs'] += 1
+            name = spec['cmp']['name']
+            if name in ('linear', 'span', 'phase') and lstsq_rank_unreliable(r):
+                continue
+            gw = {'cmp': group['cmp'], 'route': group['route'], 'specs': group['specs']}
+            try:
+                verdict = oracle(spec, r)
+            except Exception as e:
+                verdict = None
+                res.notes.append('oracle error on shared group %d/%d: %r' % (gi, j, e))
+            if verdict:
+                plain.append({'key': 'shared:%s#%d:%s' % (json.dumps(group['cmp'], sort_keys=True), j, spec_key(spec)), 'kind': 'shared-' + name,
+                              'what': 'with a comparer object shared by several graders (%d earlier uses): %s' % (j, verdict['what']),
+                              'group': gw, 'index': j, 'observed': describe(r)})
+            fresh = execute(spec)
+            if outcome_key(fresh) != outcome_key(r):
+                plain.append({'key': 'history:%s#%d:%s' % (json.dumps(group['cmp'], sort_keys=True), j, spec_key(spec)), 'kind': 'history',
+                              'what': 'the same grader and input give a different result when the comparer object was used by %d other '
+                                      'grader(s) before: %s, but on a fresh comparer %s' % (j, describe(r), describe(fresh)),
+                              'group': gw, 'index': j, 'observed': describe(r)})
+            res.nontrivial.add('shared:%d:%d:' % (gi, j) + spec_key(spec))
+            try:
+                terms.append(case_term(spec, r))
+                metas.append(spec)
+            except Unrepresentable:
+                dist['not_expressible'] += 1
+    # --- perturb-then-probe: everything above was the perturbation; the probes must behave as in a fresh interpreter
+    probes = probe_specs()
+    here = [outcome_key(execute(sp)) for sp in probes]
+    fresh, err = fresh_outcomes(probes)
+    res.oracle_evals += len(probes)
+    dist['probes_against_fresh_interpreter'] = len(probes)
+    if fresh is None or len(fresh) != len(probes):
+        res.corr_errors.append(('fresh-interpreter probe run', err or 'wrong number of outcomes'))
+    else:
+        for sp, a, b in zip(probes, here, fresh):
+            if a != b:
+                plain.append({'key': 'probe:' + spec_key(sp), 'kind': 'probe',
+                              'what': 'after the run\'s history the case gives %r, in a fresh interpreter %r' % (a, b),
+                              'spec': sp, 'tier': ctx['tier'], 'run_seed': ctx['seed']})
     res.witnesses = plain
     res.distribution = dist
     shard = max(40, (len(terms) + 15) // 16)
@@ -1577,6 +1761,27 @@ def run(ctx):
 
 
 def replay(w):
+    if 'group' in w:
+        group, j = w['group'], w['index']
+        runs = run_group(group)
+        spec, r = group['specs'][j], runs[j]
+        fresh = execute(spec)
+        verdict = oracle(spec, r)
+        text = ('C16 replay (comparer object %s shared by %d graders, this is use #%d): %s params=%r tolerance=%r student=%r -> %s; '
+                'on a fresh comparer object -> %s' % (json.dumps(group['cmp']), len(group['specs']), j + 1, spec['grader'],
+                                                      spec['params'], spec['tolerance'], spec['student'], describe(r), describe(fresh)))
+        if verdict or outcome_key(fresh) != outcome_key(r):
+            return True, text + '\n  violates the property' + (': ' + verdict['what'] if verdict else ' (history dependence)')
+        return False, text + '\n  no complaint on the current tree'
+    if w.get('kind') == 'probe':
+        for sp in all_specs({'tier': w.get('tier', 'quick'), 'seed': w.get('run_seed', 0)}):
+            execute(sp)
+        for group in shared_histories(random.Random(104729 * w.get('run_seed', 0) + 61)):
+            run_group(group)
+        a = outcome_key(execute(w['spec']))
+        fresh, err = fresh_outcomes([w['spec']])
+        text = 'C16 replay (probe after the run history): %r -> %r; fresh interpreter -> %r' % (w['spec']['student'], a, fresh)
+        return (fresh is not None and a != fresh[0]), text
     spec = w['spec']
     r = execute(spec)
     verdict = oracle(spec, r)
